@@ -110,3 +110,21 @@ Lemma c12_sort_sorted : forall A (l : list (c12_str * A)), Sorted c12_key_le (c1
 Proof.
   induction l as [|[k a] l IH]; cbn; [constructor|]. apply c12_insert_sorted. exact IH.
 Qed.
+
+(* ------------------------------------------------------------------ a subtree as receiver *)
+(* parsing into pt.sub(p): the node at p afterwards is what the parser made of the node sub(p) returned, and
+   every observation at a path unrelated to p is untouched *)
+Lemma c12_in_sub_node : forall S p t (f : c12_tree -> c12_tree * S) err,
+  snd (c12_sub_mut t p) = true ->
+  c12_node (fst (c12_in_sub t p f err)) p = fst (f (c12_node (fst (c12_sub_mut t p)) p)) /\
+  snd (c12_in_sub t p f err) = snd (f (c12_node (fst (c12_sub_mut t p)) p)).
+Proof.
+  intros S. induction p as [|k p IH]; intros t f err H.
+  - cbn. split; reflexivity.
+  - cbn [c12_in_sub c12_sub_mut] in *. destruct (c12_mem k (c12_vals t)); [discriminate|].
+    set (s := match c12_assoc k (c12_subs t) with Some s => s | None => c12_empty end) in *.
+    destruct (c12_sub_mut s p) as [s1 ok] eqn:E1. cbn [snd] in H. subst ok.
+    specialize (IH s f err). rewrite E1 in IH. cbn [fst snd] in IH. specialize (IH eq_refl).
+    destruct (c12_in_sub s p f err) as [s2 st]. cbn [fst snd] in *.
+    cbn [c12_node c12_subs]. rewrite !c12_assoc_set_same. exact IH.
+Qed.
